@@ -40,6 +40,12 @@ class Raw:
 
 
 @dataclass
+class Chunks:
+    """Ghost list of array chunks already appended (symbolic length)."""
+    kind: str = "real"
+
+
+@dataclass
 class Arr2:
     kind: str = "real"
     dtype: str | None = None
@@ -78,6 +84,7 @@ class LoopSpec:
     invariants: list = field(default_factory=list)  # [(label, expr)]
     unroll: bool = False
     decreases: str | None = None
+    end_hints: list = field(default_factory=list)  # [(label, expr)] proved at the end of the body, before the invariant
     body_hints: list = field(default_factory=list)  # [(label, expr)] proved at the top of the body, then usable
 
 
@@ -117,6 +124,8 @@ class Contract:
     case_requires: dict = field(default_factory=dict)  # (name, case label) -> [exprs]
     gen_spec: dict = field(default_factory=dict)  # consumer-side view of a generator: G, S, N, start, nchans, gulp
     gen_requires: list = field(default_factory=list)  # consumer-side preconditions (on the arguments)
+    ret_like: str | None = None  # result array takes kind/dtype of this array parameter
+    inline_calls: list = field(default_factory=list)  # callee keys executed symbolically here even if they have a contract
     ghost_args: dict = field(default_factory=dict)  # callee short name -> {ghost param: expr in the caller's scope}
     gen_copy: bool = False  # (consumer) the yielded block is written in place: model it as a fresh copy
     case_defs: dict = field(default_factory=dict)  # (name, case label) -> [(target path, expr)] definitional equalities
@@ -124,6 +133,7 @@ class Contract:
     kind: str = "function"  # 'function' | 'race' | 'lemma'
     ghost_params: dict = field(default_factory=dict)
     decreases: str | None = None  # termination measure of a recursive lemma function
+    no_unfold: bool = False  # do not emit the one-step unfolding of sum specs (consumers reason through contracts/lemmas)
     no_lemma_axioms: bool = False  # set on the lemma's own proof (no circularity)
     build: object = None  # lemma: callable(verifier) -> (obligations, status)
 
